@@ -322,3 +322,43 @@ fn thresholds_three_ticks() { thresholds(3) }
 #[kani::stub(std::time::SystemTime::now, system_time_stub)]
 #[kani::stub(std::time::Instant::now, tokio::model::std_instant_now)]
 fn thresholds_two_ticks() { thresholds(2) }
+
+// ---------------------------------------------------------------------------
+// get_healthy / get_usable through the real wrapper (filter + strategy + index
+// mapping back to the resource), for every vector of published statuses.
+// ---------------------------------------------------------------------------
+fn wrapper_selection(strategy: SelectionStrategy, usable_too: bool) {
+    let w = HealthCheckWrapper::builder()
+        .with_context(0u32, String::new())
+        .with_context(1u32, String::new())
+        .with_checker(Chk)
+        .with_selection_strategy(strategy)
+        .build();
+    let st = [any_status(), any_status()];
+    w.model_publish(0, st[0]);
+    w.model_publish(1, st[1]);
+    let h = poll_ready(w.get_healthy());
+    let any_healthy = st[0] == HealthStatus::Healthy || st[1] == HealthStatus::Healthy;
+    match h {
+        Some(r) => assert!(r < 2 && st[r as usize] == HealthStatus::Healthy, "[C18.get_healthy_only_healthy] get_healthy returns only resources currently published healthy"),
+        None => assert!(!any_healthy, "[C18.get_healthy_none_iff_none] get_healthy returns nothing only when no resource is healthy"),
+    }
+    if usable_too {
+        let u = poll_ready(w.get_usable());
+        let any_usable = st[0].is_usable() || st[1].is_usable();
+        match u {
+            Some(r) => assert!(r < 2 && st[r as usize].is_usable(), "[C18.get_usable_only_usable] get_usable returns only healthy or degraded resources"),
+            None => assert!(!any_usable, "[C18.get_usable_none_iff_none] get_usable returns nothing only when no resource is usable"),
+        }
+    }
+    kani::cover!(h == Some(1), "healthy resource behind a non-healthy one");
+    std::mem::forget(w);
+}
+#[kani::proof]
+#[kani::unwind(5)]
+#[kani::stub(std::hash::RandomState::new, random_state_stub)]
+fn wrapper_get_first_available() { wrapper_selection(SelectionStrategy::FirstAvailable, false) }
+#[kani::proof]
+#[kani::unwind(5)]
+#[kani::stub(std::hash::RandomState::new, random_state_stub)]
+fn wrapper_get_round_robin() { wrapper_selection(SelectionStrategy::RoundRobin, true) }
